@@ -187,3 +187,77 @@ func (s *h2cUpgradeSession) Get(host, path string, hdrs [][2]string, wait time.D
 }
 
 func (s *h2cUpgradeSession) Close() { s.conn.Close() }
+
+// userH2C sends cases as HTTP/2 requests over one clear-text connection (prior knowledge) and checks them like
+// the HTTP/1.1 user does. Cases HTTP/2 cannot express (connection-specific headers) are skipped.
+func (hw *httpWorld) userH2C(addr, ip string, cs []*httpCase, rewriteHost string, setReq, setResp bool) {
+	tr := &http2.Transport{
+		AllowHTTP:          true,
+		DisableCompression: true,
+		DialTLSContext: func(ctx context.Context, network, a string, _ *tls.Config) (net.Conn, error) {
+			return simnet.DialFrom(ip, addr, 10*time.Second)
+		},
+	}
+	defer tr.CloseIdleConnections()
+cases:
+	for _, c := range cs {
+		if c.upgrade || c.head || c.slowAt > 0 {
+			continue
+		}
+		for _, h := range c.req.Headers {
+			switch strings.ToLower(h.k) {
+			case "connection", "transfer-encoding", "upgrade", "keep-alive", "te", "proxy-connection", "trailer", "expect":
+				continue cases
+			}
+		}
+		if len(c.req.get("Cookie")) > 1 {
+			continue // HTTP/2 joins cookie lines into one (RFC 7540 8.1.2.5): a change the protocol itself declares
+		}
+		c.user = ip
+		req, err := http.NewRequest(c.req.Method, "http://"+addr+c.req.Target, bytes.NewReader(c.req.Body))
+		if err != nil {
+			continue
+		}
+		if req.URL.RequestURI() != c.req.Target {
+			continue // a target Go's URL type does not carry verbatim
+		}
+		req.Host = "a.example.test"
+		for _, h := range c.req.Headers {
+			if strings.EqualFold(h.k, "host") || strings.EqualFold(h.k, "content-length") {
+				continue // carried by :authority and by the framing
+			}
+			// HTTP/2 lower-cases names on the wire; lines of one name (in whatever casing) keep their order
+			k := http.CanonicalHeaderKey(h.k)
+			req.Header[k] = append(req.Header[k], h.v)
+		}
+		if len(c.req.Body) == 0 {
+			req.Body = nil
+			req.ContentLength = 0
+		}
+		ctx, cancel := context.WithTimeout(context.Background(), 5*time.Minute)
+		resp, err := tr.RoundTrip(req.WithContext(ctx))
+		if err != nil {
+			cancel()
+			if strings.Contains(err.Error(), "invalid") {
+				continue // refused by the client library before anything was sent
+			}
+			hw.viol("response", "no-response", "case %d (%s %s over h2c, body %d): %v", c.id, c.req.Method, c.req.Target, len(c.req.Body), err)
+			return
+		}
+		body, rerr := io.ReadAll(resp.Body)
+		resp.Body.Close()
+		cancel()
+		if rerr != nil {
+			hw.viol("response", "body-read-failed", "case %d (%s %s over h2c): %v after %d bytes", c.id, c.req.Method, c.req.Target, rerr, len(body))
+			return
+		}
+		got := &rawMsg{Status: resp.StatusCode, Body: body}
+		for k, vs := range resp.Header {
+			for _, v := range vs {
+				got.Headers = append(got.Headers, hdr{k, v})
+			}
+		}
+		hw.w.Probe("http.h2c_case")
+		hw.checkCase(c, got, rewriteHost, setReq, setResp)
+	}
+}
